@@ -154,8 +154,22 @@ def do_call(P, errors, p, kind, tok, state=None, variant=0):
     """returns (outcome, val).  state["bp"]: a batch proxy that is re-used as long as its submissions succeed (one that raised keeps
     its queue by design); variant 1 of a oneway call is a oneway batch on that batch proxy"""
     state = state if state is not None else {}
+    raw = bool(state.get("raw")) and kind in ("normal", "raise", "getattr")
+
+    def unwrap(msg):
+        # a proxy in wire-level mode (the way the HTTP gateway uses proxies) hands out the reply message itself
+        from Pyro5 import protocol, serializers
+        if not isinstance(msg, protocol.ReceivingMessage):
+            raise util.MachineryError("wire-level proxy returned %r" % type(msg))
+        data = serializers.serializers_by_id[msg.serializer_id].loads(msg.data)
+        if msg.flags & protocol.FLAGS_EXCEPTION:
+            raise data
+        return data
     try:
-        if kind == "normal":
+        p._pyroRawWireResponse = raw
+        if raw:
+            v = unwrap(p.call(tok) if kind == "normal" else p.boom(tok) if kind == "raise" else getattr(p, "attr%d" % tok))
+        elif kind == "normal":
             v = p.call(tok)
         elif kind == "oneway" and variant == 1:
             b = state.get("bp") or P.BatchProxy(p)
@@ -197,8 +211,12 @@ def do_call(P, errors, p, kind, tok, state=None, variant=0):
     except ValueError as x:
         v = x.args[0] if x.args and isinstance(x.args[0], int) else -1
         return ("exc", v)
+    except util.MachineryError:
+        raise
     except Exception as x:
         return ("other:" + type(x).__name__, 0)
+    finally:
+        p._pyroRawWireResponse = False
 
 
 def run_scripts(scripts, servertype):
@@ -243,7 +261,7 @@ def run_scripts(scripts, servertype):
                 p._pyroMaxRetries = retries
                 p._pyroTimeout = 5.0
                 p._pyroSeq = seq0
-                state = {}
+                state = {"raw": sc_i % 4 == 1}      # every fourth script uses the proxy in wire-level mode
                 config.ITER_STREAM_LINGER = (0.0, 30.0)[(sc_i // 2) % 2]
                 if any(st["kind"] == "fetch" for st in script):
                     state["it"] = p.stream()          # opened before any fault is armed
